@@ -20,6 +20,7 @@ EXPLANATION = (
     "file-system effect of the set-up; config.yaml is written iff has_full_config; and nothing but "
     "the four known sites touches the checkpoint directory.  Does not decide which step directories "
     "exist after Orbax's own garbage collection."
+    ' Also decides (R12.10) that nothing but checkpoint_frequency and max_checkpoints governs which steps are written and kept: the Orbax manager options are exactly max_to_keep / create / enable_async_checkpointing (a frozen table names the options that change cadence or retention), the periodic guard has no further conjunct, and no step-removing manager method is called.'
 )
 RULES = {
     "R12.1": "periodic save guard == is_checkpointing_enabled and self.iteration % self.checkpoint_frequency == 0, modulus flowing from config.checkpoint_frequency",
